@@ -80,6 +80,9 @@ def universe(tier):
         hs.append(h_layer("constant_%d" % N, "constant<verif::vd<float, %d>, cv::float2>" % N, N, "float", 2, "float", None))
         hs.append(h_layer("identity_%d" % N, "identity<verif::vd<float, %d>>" % N, N, "float", N, "float", None))
     hs.append(h_layer("hilbert", "hilbert<cv::size2, P>", 2, "size_t", 2, "float", "verif::aprobe<float, 2>"))
+    if 4 not in Ns:
+        hs.append(h_layer("linear_4", "linear<P, verif::vd<float, 4>>", 4, "float", 2, "float", "verif::vprobe<std::size_t, 4, float, 2>"))
+    hs.append(h_layer("linear_5", "linear<P, verif::vd<double, 5>>", 5, "double", 1, "float", "verif::vprobe<std::size_t, 5, float, 1>"))
     # real, array-backed stacks (no probe): storage is reached through the view
     hs.append(h_layer("real_strided3", "strided<cv::size3, %s>" % A3, 3, "size_t", 3, "float", None))
     hs.append(h_layer("real_morton3", "morton<cv::size3, %s, false>" % A3, 3, "size_t", 3, "float", None))
